@@ -20,10 +20,12 @@ This closes the two gaps of `Proofs/WholeSafe.lean` (`whole_no_crash_partial`):
 (2) the very first machine cycle after power-on.  `oam.New` leaves `ppuLastAccess = 0` (outside FE00–FE9F) and
     `ppu.New` opens the OAM-bug window (`WriteLCDC(0x91)` → `EnterMode2`), so the OAM unit is NOT `Safe` at
     power-on: a CPU access to FE00–FEFF in the first cycle would make `Corrupt()` index `oam[512]`.  What
-    prevents it is the CPU's power-on state: the first cycle fetches at PC = 0100 (cartridge ROM), and with
-    BC = 0013, DE = 00D8, HL = 014D, SP = FFFE the FIRST sub-instruction of every one of the 512 opcode rows
-    puts on the bus only addresses below 8000 or in FF80–FFFF or FF13 (checked row by row by kernel evaluation,
-    `first_rows`); at the end of that cycle `ppu.EndMachineCycle` (mode 2, LCD on) sets `ppuLastAccess`.
+    prevents it is the CPU's power-on state: the first cycle fetches the opcode byte(s) at PC = 0100/0101
+    (cartridge ROM), and the FIRST sub-instruction of every one of the 512 opcode rows is either internal or an
+    immediate-operand fetch at PC (0101) – checked row by row by kernel evaluation (`first_rows`: with the power-on
+    registers every bus address it uses is below 8000); at the end of that cycle `ppu.EndMachineCycle` (mode 2,
+    LCD on) sets `ppuLastAccess`.  (The hypothesis matters: the same machine with PC = FE00 panics in its first
+    cycle – see the examples at the end.)
     So the board invariant is `BoardOk' w := BoardOk w.b ∨ (FirstOk w.b ∧ (the CPU is in its power-on state
     ∨ it has exited))` – it mentions the CPU because the safety of the first cycle depends on the CPU's registers.
 
@@ -131,106 +133,66 @@ structure FirstOk (b : Board) : Prop where
   quiet : NoTrig b.m.oam
   apu   : ApuOk b.apu
 
-/-- the addresses the first cycle can put on the bus: cartridge ROM, HRAM/IE, and NR13 (`LD (C),A` with C = 13) -/
-def far (a : Cpu.Word) : Bool := decide (a.toNat < 0x8000) || decide (0xff80 ≤ a.toNat) || a == 0xff13
+/-- the addresses the first cycle can put on the bus: the cartridge's ROM area -/
+def far (a : Cpu.Word) : Bool := decide (a.toNat < 0x8000)
 
-private theorem far_cases {a : Cpu.Word} (h : far a = true) :
-    a.toNat < 0x8000 ∨ (0xff80 ≤ a.toNat ∧ a.toNat < 65536) ∨ a.toNat = 0xff13 := by
+private theorem far_lt {a : Cpu.Word} (h : far a = true) : a.toNat < 0x8000 := by
   unfold far at h
-  simp only [Bool.or_eq_true, decide_eq_true_eq, beq_iff_eq] at h
-  rcases h with (h | h) | h
-  · exact Or.inl h
-  · exact Or.inr (Or.inl ⟨h, a.isLt⟩)
-  · exact Or.inr (Or.inr (by rw [h]; rfl))
+  simpa using h
 
-private theorem not_sound {a : Nat} (h : a < 0x8000 ∨ (0xff80 ≤ a ∧ a < 65536)) : soundAddr a = false := by
+private theorem not_sound {a : Nat} (h : a < 0x8000) : soundAddr a = false := by
   unfold soundAddr
   simp only [Bool.or_eq_false_iff, Bool.and_eq_false_iff, decide_eq_false_iff_not]
   omega
 
-private theorem first_read_nat (b : Board) (h : FirstOk b) (a : Nat)
-    (ha : a < 0x8000 ∨ (0xff80 ≤ a ∧ a < 65536) ∨ a = 0xff13) : FirstOk (b.read a).2 := by
+private theorem first_read_nat (b : Board) (h : FirstOk b) (a : Nat) (ha : a < 0x8000) : FirstOk (b.read a).2 := by
   have ha' : a < 65536 := by omega
   unfold Board.read Board.read?
-  rw [(whole_apu_addresses a ha').1]
-  by_cases h13 : a = 0xff13
-  · subst h13
-    have e : soundAddr 0xff13 = true := by decide
+  rw [(whole_apu_addresses a ha').1, not_sound ha]
+  simp only [Bool.false_eq_true, if_false]
+  have er : rH a = route expectedReadArms a := by unfold rH; rw [Tetro.C06.c06_arms.1]
+  rw [er]
+  have hr := range_read ha'
+  generalize route expectedReadArms a = hd at hr ⊢
+  cases hd <;> simp only [inRange, Bool.or_eq_true, Bool.and_eq_true, decide_eq_true_eq, beq_iff_eq,
+    Bool.true_and, Bool.false_eq_true] at hr
+  case mbc =>
+    have := Tetro.CartWF.read_ok h.cart a
+    simp only [Cart.busRead, Option.isSome_iff_exists] at this
+    obtain ⟨v, hv⟩ := this
+    have e : readVal .mbc b.m a = some v := hv
     rw [e]
-    simp only [if_true]
-    obtain ⟨v, hv⟩ := Tetro.ApuOk.read_ok b.apu 0xff13 h.apu
-    rw [hv]
-    exact h
-  · have ha2 : a < 0x8000 ∨ (0xff80 ≤ a ∧ a < 65536) := by omega
-    rw [not_sound ha2]
-    simp only [Bool.false_eq_true, if_false]
-    have er : rH a = route expectedReadArms a := by unfold rH; rw [Tetro.C06.c06_arms.1]
-    rw [er]
-    have hr := range_read ha'
-    generalize route expectedReadArms a = hd at hr ⊢
-    cases hd <;> simp only [inRange, Bool.or_eq_true, Bool.and_eq_true, decide_eq_true_eq, beq_iff_eq,
-      Bool.true_and, Bool.false_eq_true] at hr
-    case mbc =>
-      have := Tetro.CartWF.read_ok h.cart a
-      simp only [Cart.busRead, Option.isSome_iff_exists] at this
-      obtain ⟨v, hv⟩ := this
-      have e : readVal .mbc b.m a = some v := hv
-      rw [e]
-      exact ⟨h.alive, h.cart, h.ppu, h.dma, h.quiet, h.apu⟩
-    case hram =>
-      have e : ∃ v, readVal .hram b.m a = some v := by
-        simp only [readVal]; rw [Tetro.BusBasic.sub16_eq hr.1 ha', Tetro.BusBasic.ldv_eq (by omega)]; exact ⟨_, rfl⟩
-      obtain ⟨v, e⟩ := e
-      rw [e]
-      exact ⟨h.alive, h.cart, h.ppu, h.dma, h.quiet, h.apu⟩
-    case ie => exact ⟨h.alive, h.cart, h.ppu, h.dma, h.quiet, h.apu⟩
-    all_goals (exfalso; omega)
+    exact ⟨h.alive, h.cart, h.ppu, h.dma, h.quiet, h.apu⟩
+  all_goals (exfalso; omega)
 
-private theorem first_write_nat (b : Board) (h : FirstOk b) (a v : Nat)
-    (ha : a < 0x8000 ∨ (0xff80 ≤ a ∧ a < 65536) ∨ a = 0xff13) : FirstOk (b.write a v) := by
+private theorem first_write_nat (b : Board) (h : FirstOk b) (a v : Nat) (ha : a < 0x8000) : FirstOk (b.write a v) := by
   have ha' : a < 65536 := by omega
   unfold Board.write Board.write?
-  rw [(whole_apu_addresses a ha').2]
-  by_cases h13 : a = 0xff13
-  · subst h13
-    have e : soundAddr 0xff13 = true := by decide
-    rw [e]
-    simp only [if_true]
-    exact ⟨h.alive, h.cart, h.ppu, h.dma, h.quiet, Tetro.ApuOk.write_ok b.apu 0xff13 v h.apu⟩
-  · have ha2 : a < 0x8000 ∨ (0xff80 ≤ a ∧ a < 65536) := by omega
-    rw [not_sound ha2]
-    simp only [Bool.false_eq_true, if_false]
-    have ew : wH a = route expectedWriteArms a := by unfold wH; rw [Tetro.C06.c06_arms.2]
-    rw [ew]
-    have hr := range_write ha'
-    generalize route expectedWriteArms a = hd at hr ⊢
-    cases hd <;> simp only [inRange, Bool.or_eq_true, Bool.and_eq_true, decide_eq_true_eq, beq_iff_eq,
-      Bool.true_and, Bool.false_eq_true, Bool.not_false] at hr
-    case mbc =>
-      obtain ⟨c', e, w⟩ := Tetro.CartWF.write_ok h.cart a v
-      have e' : writeH .mbc b.m a v = some { b.m with cart := c' } := by simp only [writeH, e, Option.map_some]
-      rw [e']
-      exact ⟨h.alive, w, h.ppu, h.dma, h.quiet, h.apu⟩
-    case hram =>
-      have e : ∃ r, stv b.m.hram (Oam.sub16 a 0xff80) v = some r := by
-        rw [Tetro.BusBasic.sub16_eq hr.1 ha']; exact ⟨_, Tetro.BusBasic.stv_eq (by omega)⟩
-      obtain ⟨r, e⟩ := e
-      have e' : writeH .hram b.m a v = some { b.m with hram := r } := by simp only [writeH, e, Option.map_some]
-      rw [e']
-      exact ⟨h.alive, h.cart, h.ppu, h.dma, h.quiet, h.apu⟩
-    case ie => exact ⟨h.alive, h.cart, h.ppu, h.dma, h.quiet, h.apu⟩
-    all_goals (exfalso; omega)
+  rw [(whole_apu_addresses a ha').2, not_sound ha]
+  simp only [Bool.false_eq_true, if_false]
+  have ew : wH a = route expectedWriteArms a := by unfold wH; rw [Tetro.C06.c06_arms.2]
+  rw [ew]
+  have hr := range_write ha'
+  generalize route expectedWriteArms a = hd at hr ⊢
+  cases hd <;> simp only [inRange, Bool.or_eq_true, Bool.and_eq_true, decide_eq_true_eq, beq_iff_eq,
+    Bool.true_and, Bool.false_eq_true, Bool.not_false] at hr
+  case mbc =>
+    obtain ⟨c', e, w⟩ := Tetro.CartWF.write_ok h.cart a v
+    have e' : writeH .mbc b.m a v = some { b.m with cart := c' } := by simp only [writeH, e, Option.map_some]
+    rw [e']
+    exact ⟨h.alive, w, h.ppu, h.dma, h.quiet, h.apu⟩
+  all_goals (exfalso; omega)
 
 private theorem first_read (b : Board) (a : Cpu.Word) (ha : far a = true) (h : FirstOk b) :
-    FirstOk (Cpu.Bus.read b a).2 := first_read_nat b h a.toNat (far_cases ha)
+    FirstOk (Cpu.Bus.read b a).2 := first_read_nat b h a.toNat (far_lt ha)
 
 private theorem first_write (b : Board) (a : Cpu.Word) (v : Cpu.Byte) (ha : far a = true) (h : FirstOk b) :
-    FirstOk (Cpu.Bus.write b a v) := first_write_nat b h a.toNat v.toNat (far_cases ha)
+    FirstOk (Cpu.Bus.write b a v) := first_write_nat b h a.toNat v.toNat (far_lt ha)
 
 private theorem first_trigger (b : Board) (a : Cpu.Word) (ha : far a = true) (h : FirstOk b) :
     FirstOk (Cpu.Bus.trigger b a) := by
   have e : Oam.triggerWriteCorruption b.m.oam a = b.m.oam := by
-    have hc := far_cases ha
+    have hc := far_lt ha
     unfold Oam.triggerWriteCorruption
     rw [if_pos]
     simp only [Bool.or_eq_true, decide_eq_true_eq]
@@ -258,7 +220,7 @@ private def headWithin (row : List Cpu.MicroOp) (r : Cpu.Regs) : Bool :=
   | μ :: _ => within far μ r
 
 /-- row by row: the first sub-instruction of each of the 512 opcode rows, started from the power-on registers,
-    puts on the bus only addresses below 8000, in FF80–FFFF, or FF13 -/
+    puts on the bus only addresses below 8000 (in fact only PC, for an immediate operand) -/
 private theorem first_rows :
     (∀ op < 256, headWithin (Tetro.Spec.Isa.specTables.normal.getD op []) regs1 = true) ∧
     (∀ op < 256, headWithin (Tetro.Spec.Isa.specTables.prefixed.getD op []) regs2 = true) := by
@@ -441,5 +403,57 @@ theorem whole_events_ok (evs : List (Option (Nat × Bool))) (w : Whole) (h : Who
     cases e with
     | none => exact ih _ (whole_cycle_ok w h)
     | some kb => exact ih _ (whole_button_ok w kb.1 kb.2 h)
+
+/-! ### non-vacuity -/
+
+/-- a 32 KiB ROM-only cartridge filled with one byte, powered on with speakers attached -/
+def romOf (byte : Nat) : Whole := Whole.powerOn (.none { rom := fun _ _ => byte, imgLen := 0x8000 }) false true
+
+private theorem romOf_ok (byte : Nat) : WholeOk (romOf byte) :=
+  have hf := powerOn_first (.none { rom := fun _ _ => byte, imgLen := 0x8000 }) false true
+    (by show (0x8000 : Nat) ≤ 0x8000; decide)
+  ⟨Or.inr ⟨hf, Or.inl ⟨rfl, powerOn_pending _ _ _⟩⟩, init_ok, hf.apu⟩
+
+/-- the `demo` machine of Proofs/Whole.lean (all-NOP ROM, nothing attached) satisfies the invariant at power-on
+    (through its second disjunct: `ppuLastAccess = 0` there) … -/
+example : WholeOk demo :=
+  have hf := powerOn_first (.none { rom := fun _ _ => 0, imgLen := 0x8000 }) false false
+    (by show (0x8000 : Nat) ≤ 0x8000; decide)
+  ⟨Or.inr ⟨hf, Or.inl ⟨rfl, powerOn_pending _ _ _⟩⟩, init_ok, hf.apu⟩
+example : demo.b.m.oam.ppuLastAccess = 0 ∧ demo.b.m.oam.corrupt = true := by decide +kernel
+/-- … and from the end of its first cycle through the first (`ppuLastAccess = FE04`) -/
+example : demo.cycle.b.m.oam.ppuLastAccess = 0xfe04 := by decide +kernel
+
+/-- a machine in the middle of a multi-cycle instruction: the ROM is all `JP C3C3` (4 cycles); after two cycles the
+    CPU is at sub-instruction index 2 of 4, not at a boundary, and the state satisfies the invariant -/
+example : WholeOk (Whole.run 2 (romOf 0xc3)) := whole_run_ok 2 _ (romOf_ok 0xc3)
+example : (Whole.run 2 (romOf 0xc3)).cpu.cycle = 2 ∧ (Whole.run 2 (romOf 0xc3)).cpu.ops.length = 4 ∧
+    (Whole.run 2 (romOf 0xc3)).cpu.isFinished = false ∧ (Whole.run 2 (romOf 0xc3)).stopped = false := by
+  decide +kernel
+
+/-- `CpuOk` in the middle of a conditional instruction with an early-finish record (RET NZ: may finish at 2, last
+    cycle 5, five sub-instructions) -/
+example : CpuOk { regs := Cpu.Regs.init, ops := Cpu.Tables.gen.normal.getD 0xc0 [], cycle := 3,
+                  early := Cpu.Tables.gen.earlyOf 0xc0, crashed := false } := by
+  rw [Tetro.C01.c01_tables]
+  exact ⟨rfl, by decide +kernel, by decide +kernel⟩
+
+/-- the deliberate exit is not a panic: a ROM of undefined opcodes (D3) stops the machine in its first cycle with
+    `exited` set and no panic flag, and it stays so -/
+example : (Whole.run 3 (romOf 0xd3)).cpu.regs.exited = true ∧ (Whole.run 3 (romOf 0xd3)).stopped = true ∧
+    (Whole.run 3 (romOf 0xd3)).b.dead = false ∧ (Whole.run 3 (romOf 0xd3)).cpu.crashed = false := by decide +kernel
+example (n : Nat) : (Whole.run n (romOf 0xd3)).b.dead = false ∧ (Whole.run n (romOf 0xd3)).cpu.crashed = false :=
+  (whole_run_ok n _ (romOf_ok 0xd3)).no_panic
+
+/-- `ApuOk` with the wave channel running and a wave-RAM write redirected to the last-accessed byte -/
+example : ApuOk ((Apu.Apu.new true true).run [.write 0xFF1A 0x80, .write 0xFF1E 0x87, .cycle, .cycle,
+    .write 0xFF30 0x12, .cycle]) := Tetro.ApuOk.run_ok _ _ (Tetro.ApuOk.new_ok true true)
+example : ((Apu.Apu.new true true).run [.write 0xFF1A 0x80, .write 0xFF1E 0x87, .cycle, .cycle,
+    .write 0xFF30 0x12, .cycle]).ch3.enabled = true := by decide +kernel
+
+/-- the power-on hypothesis of the first cycle is needed: the model DOES panic (`Corrupt()` indexes `oam[512]`)
+    from a state that differs from power-on only in PC = FE00 – such a state is not constructible -/
+example : ({ romOf 0 with cpu := { Cpu.Cpu.init with regs := { Cpu.Regs.init with pc := 0xfe00 } } } : Whole).cycle.b.crashed
+    = true := by decide +kernel
 
 end Tetro.WholeNoCrash
